@@ -366,12 +366,32 @@ def run_lfs_histories(obs, hists, work):
     return res, ""
 
 
+def load_known():
+    """open known findings of this property: the shared file plus the per-agent files known_findings.<agent>.jsonl"""
+    import glob
+    import json
+    out = list(C.load_known(PROP))
+    for p in sorted(glob.glob(os.path.join(C.VERIF, "known_findings.*.jsonl"))):
+        for line in open(p):
+            line = line.strip()
+            if not line or line.startswith("#"):
+                continue
+            j = json.loads(line)
+            if j.get("property") == PROP and not j.get("fixed"):
+                out.append(j)
+    return out
+
+
 # ------------------------------------------------------------------ running both sides
 
-def run_pipe(cmd, stdin_path=None, out_path=None):
+def run_pipe(cmd, stdin_path=None, out_path=None, tmpdir=None):
+    env = None
+    if tmpdir:
+        env = dict(os.environ)
+        env["TMPDIR"] = tmpdir
     with open(out_path, "wb") as out:
         fin = open(stdin_path, "rb") if stdin_path else None
-        rc = subprocess.run(cmd, stdin=fin, stdout=out, stderr=subprocess.PIPE).returncode
+        rc = subprocess.run(cmd, stdin=fin, stdout=out, stderr=subprocess.PIPE, env=env).returncode
         if fin:
             fin.close()
     return rc
@@ -499,6 +519,24 @@ def _run_body(res, tier, obs, model, work, maxseg, mount_seg, lfs_seg, nrand, pr
         futs.append(ex.submit(run_pipe, [model, "hist"], hist_f, hist_mo))
         lfs_out = os.path.join(work, "lfs.txt")
         futs.append(ex.submit(run_pipe, [obs, "localfs", str(lfs_seg)], None, lfs_out))
+        # the same sentinel run for every SPELLING of the base (relative, ".", "./", "a/..", doubled / trailing separators,
+        # a symbolic link as working directory), each in its own chroot jail
+        rc, o, e = C.run([obs, "localfs-layouts"])
+        base_layouts = [tuple(l.split("\t")) for l in o.splitlines() if l.count("\t") == 2]
+        base_seg = 1 if tier == "quick" else 2
+        base_outs = []
+        for k, lay in enumerate(base_layouts):
+            bo = os.path.join(work, "lfsbase_%d.txt" % k)
+            futs.append(ex.submit(run_pipe, [obs, "localfs-base", str(base_seg), str(k)], None, bo, work))
+            base_outs.append((lay, bo))
+        # the script-level builtins (cp, rename, symlink, write_file, ... every builtin of the os module and its aliases)
+        # under a VirtualOS over real trees, in two worlds that differ only OUTSIDE the mount sources
+        so_layouts = ["root+m", "m-only", "root+m-cwd-d", "root-only"]
+        so_outs = []
+        for k, lay in enumerate(so_layouts):
+            so = os.path.join(work, "scriptops_%d.txt" % k)
+            futs.append(ex.submit(run_pipe, [obs, "scriptops", lay], None, so, work))
+            so_outs.append((lay, so))
         rcs = [f.result() for f in futs]
     if any(rcs):
         res.violation({"property": PROP, "kind": "harness-run-failed", "stage": "c13obs/model_c13 exit status",
@@ -717,6 +755,108 @@ def _run_body(res, tier, obs, model, work, maxseg, mount_seg, lfs_seg, nrand, pr
         oracle_viol.append({"stage": "localfs", "op": f[1], "arg1_hex": f[2], "arg2_hex": f[3] if len(f) > 3 else "",
                             "why": "effect outside the base: " + (f[4] if len(f) > 4 else "")})
 
+    # every spelling of the base roots the filesystem at the directory it names
+    known = load_known()
+    kf_tmp = any(k.get("id") == "localfs-mkdirtemp-empty-dir-uses-host-tempdir" for k in known)
+    base_stats = {"layouts": [], "refused_by_New": [], "evaluations": 0, "jail": True, "known_finding_cases": 0}
+    if not base_outs:
+        res.violation({"property": PROP, "kind": "harness-run-failed", "stage": "c13obs localfs-layouts gave no layouts"},
+                      nofail=True, tag="lfsbase")
+        return
+    for (lname, lchdir, lbase), bo in base_outs:
+        summ = ""
+        for line in open(bo, "rb"):
+            line = line.decode("utf-8", "replace").rstrip("\n")
+            f = line.split("\t")
+            if f[0] == "NOJAIL":
+                base_stats["jail"] = False
+            elif f[0] == "REFUSED":
+                base_stats["refused_by_New"].append(lbase)
+            elif f[0] == "SUMMARY":
+                summ = line
+            elif f[0] == "VIOL":
+                a1 = bytes.fromhex(f[2]).decode("utf-8", "replace") if len(f) > 2 else ""
+                a2 = bytes.fromhex(f[3]).decode("utf-8", "replace") if len(f) > 3 and f[1] != "ReadFile-leak" else ""
+                eff = f[4] if len(f) > 4 else ""
+                # known finding (decided on the observation): MkdirTemp with the EMPTY directory argument is handed to
+                # os.MkdirTemp("", pattern) unresolved and lands in the host's temporary directory
+                if (kf_tmp and f[1] == "MkdirTemp" and a1 == "" and eff
+                        and all(c.startswith("created /tmp/t") and c.count("/") == 2 for c in eff.split(";"))):
+                    base_stats["known_finding_cases"] += 1
+                    continue
+                oracle_viol.append({"stage": "localfs-base", "layout": lname, "working_directory": "<jail>" + lchdir,
+                                    "base_text": lbase, "base_directory": "<jail>/base", "op": f[1], "arg1": a1, "arg2": a2,
+                                    "arg1_hex": f[2] if len(f) > 2 else "", "layout_index": [x[0][0] for x in base_outs].index(lname),
+                                    "call": "chdir(%r); localfs.New(WithBase(%r)).%s(%s)" % (
+                                        lchdir, lbase, f[1], ", ".join(repr(x) for x in ([a1, a2] if f[1] in ("Rename", "Symlink") else [a1]))),
+                                    "why": "the filesystem is rooted at <jail>/base (base text %r from the working directory %r) but the "
+                                           "operation had an effect outside it: %s" % (lbase, lchdir, eff)})
+        if base_stats["jail"] and not summ:
+            res.violation({"property": PROP, "kind": "harness-run-failed", "stage": "localfs-base %s gave no summary" % lname},
+                          nofail=True, tag="lfsbase")
+            return
+        if summ:
+            n = int(summ.split("evals=")[1].split("\t")[0])
+            evals += n
+            base_stats["evaluations"] += n
+            if n:
+                base_stats["layouts"].append({"name": lname, "chdir": lchdir, "base": lbase})
+                nontrivial.add(("localfs-base", lname))
+    if base_stats["known_finding_cases"]:
+        res.known_finding("localfs.MkdirTemp(\"\", pattern) on a rooted filesystem creates the directory in the host's "
+                          "temporary directory, outside the base (%d cases over %d base spellings)"
+                          % (base_stats["known_finding_cases"], len(base_stats["layouts"])))
+    cov["localfs_base_spellings"] = base_stats
+    if not base_stats["jail"]:
+        res.assumptions.append("the base-spelling stage of localfs was NOT run: chroot is not permitted for this user")
+
+    # script-level builtins under a VirtualOS: the host outside the mounts is neither written nor read
+    so_stats = {"layouts": so_layouts, "evaluations": 0, "calls_with_effect_inside_the_mounts": 0, "builtins_with_effect": [], "jail": True}
+    for lay, so in so_outs:
+        summ = ""
+        for line in open(so, "rb"):
+            f = line.decode("utf-8", "replace").rstrip("\n").split("\t")
+            if f[0] == "NOJAIL":
+                so_stats["jail"] = False
+            elif f[0] == "SUMMARY":
+                summ = "\t".join(f)
+            elif f[0] == "VIOL" and len(f) >= 7:
+                un = lambda x: bytes.fromhex(x).decode("utf-8", "replace")
+                src = un(f[3])
+                v = {"stage": "scriptops", "layout": lay, "script": src, "builtin": src.split("(")[0],
+                     "setting": "VirtualOS over rooted filesystems on real trees (mounts as in c13obs scriptops layout %r); the host outside "
+                                "the mount sources has directories h, f.txt, m and files x, d at / and in the process's working "
+                                "directory in world A, none of them in world B" % lay}
+                if f[1] == "host-written":
+                    v["world"] = f[4]
+                    v["host_changes"] = un(f[5]).split(";")
+                    v["impl"] = un(f[6]).split("\n")
+                    v["why"] = "risor.Eval(%r) under the VirtualOS changed host entries OUTSIDE every mount source: %s" % (src, v["host_changes"][:4])
+                else:
+                    v["world_A"] = un(f[5]).split("\n")
+                    v["world_B"] = un(f[6]).split("\n")
+                    v["why"] = ("risor.Eval(%r) under the VirtualOS depends on the host OUTSIDE the mount sources: with host entries of "
+                                "the same names present (world A) the result and the changes inside the mounts are %r, without them "
+                                "(world B) %r - the mounts and the script are identical, so a host path outside every mount was read"
+                                % (src, v["world_A"], v["world_B"]))
+                oracle_viol.append(v)
+        if not so_stats["jail"]:
+            continue
+        if not summ:
+            res.violation({"property": PROP, "kind": "harness-run-failed", "stage": "scriptops %s gave no summary" % lay},
+                          nofail=True, tag="scriptops")
+            return
+        n = int(summ.split("evals=")[1].split("\t")[0])
+        evals += n
+        so_stats["evaluations"] += n
+        so_stats["calls_with_effect_inside_the_mounts"] += int(summ.split("effects=")[1].split("\t")[0])
+        so_stats["builtins_with_effect"] = sorted(set(so_stats["builtins_with_effect"]) | set(summ.split("builtins_with_effect=")[1].split(",")))
+        for b in summ.split("builtins_with_effect=")[1].split(","):
+            nontrivial.add(("scriptops", lay, b))
+    cov["script_builtins_under_virtual_os"] = so_stats
+    if not so_stats["jail"]:
+        res.assumptions.append("the script-builtin stage under a VirtualOS was NOT run: chroot is not permitted for this user")
+
     cov["evaluations"] = evals
     cov["distinct_nontrivial"] = len(nontrivial)
     cov["rule"] = ("exhaustive enumeration of the property's path alphabet {'', '.', '..', 'a', 'b', '..a', 'a..'} with <= %d "
@@ -737,11 +877,17 @@ def _run_body(res, tier, obs, model, work, maxseg, mount_seg, lfs_seg, nrand, pr
                    "Rename / reads / writes / removes with paths that walk through links made earlier): after every operation every "
                    "symbolic link inside the base is resolved physically (as the kernel does) and must lead into the base, nothing "
                    "outside may change, no read may reveal outside content, and the stored link text must be the model's "
-                   "resolve_path of the first argument; each output compared "
+                   "resolve_path of the first argument; the same sentinel run of every localfs method for %d SPELLINGS of the "
+                   "base (relative, '.', './', 'a/..', doubled / trailing separators, a symbolic link as working directory; each in "
+                   "a chroot jail): the filesystem is rooted at the directory the text names; every builtin of the os module and "
+                   "its top-level aliases (cp, rename, symlink, write_file, ...) evaluated by risor with one and two path arguments "
+                   "under a VirtualOS over real trees (%d evaluations, %d layouts), in two worlds that differ only OUTSIDE the mount "
+                   "sources: nothing outside changes and result + mount contents are identical in both worlds; each output compared "
                    "with the extracted Gallina model and judged by an independent Python oracle. Non-trivial = distinct inputs "
                    "containing '..' that resolve, or that are served by some mount." % (
                        maxseg, npaths, len(BASES), mount_seg, npaths_m, len(LAYOUTS), len(rnd), len(hists),
-                       two_stats["pairs"], len(TWO_LAYOUTS), two_stats["tree_ops"], lfs_seg, len(lfs_h)))
+                       two_stats["pairs"], len(TWO_LAYOUTS), two_stats["tree_ops"], lfs_seg, len(lfs_h),
+                       len(base_stats["layouts"]), so_stats["evaluations"], len(so_layouts)))
     cov["exhaustive"] = True
     cov["samples"] = samples
     cov["correspondence"] = {"cases": evals - lfs_evals, "differences": len(corr_diffs),
@@ -811,6 +957,21 @@ def replay(data):
             f = line.split("\t")
             print(f[:2], bytes.fromhex(f[2]).decode("utf-8", "replace").split("\n") if len(f) > 2 else "")
         print(e)
+    elif st == "scriptops":
+        rc, o, e = C.run([obs, "scriptops", data["layout"], data["builtin"]])
+        for line in o.splitlines():
+            f = line.split("\t")
+            if f[0] == "VIOL" and bytes.fromhex(f[3]).decode("utf-8", "replace") == data["script"]:
+                print(f[1], f[2], data["script"], f[4], [bytes.fromhex(x).decode("utf-8", "replace") for x in f[5:]])
+        print(e)
+    elif st == "localfs-base":
+        rc, o, e = C.run([obs, "localfs-base", "1", str(data["layout_index"])])
+        for line in o.splitlines():
+            f = line.split("\t")
+            if f[0] == "VIOL":
+                print(f[1], [bytes.fromhex(x).decode("utf-8", "replace") for x in f[2:4]], f[4:])
+            else:
+                print(line)
     elif st in ("mounts", "mounts-hex"):
         inp = data["input"] if st == "mounts-hex" else data["input"].encode("utf-8", "surrogateescape").hex()
         rc, o, e = C.run([obs, "stdin-mounts", data["params"][0], ",".join(data["params"][1])], input=(inp + "\n").encode())
